@@ -9,7 +9,20 @@ use std::cell::Cell;
 
 #[derive(Clone, Debug, Serialize, Deserialize)]
 pub enum Case {
-    Linear { xs: Vec<f64>, slope: f64, icpt: f64, noise: Vec<f64>, noise_amp: f64, perm_seed: u64, mismatch: bool },
+    Linear {
+        xs: Vec<f64>,
+        slope: f64,
+        icpt: f64,
+        noise: Vec<f64>,
+        noise_amp: f64,
+        perm_seed: u64,
+        mismatch: bool,
+        /// abscissae are offset + spread * xs (data far from the origin relative to their spread: years, a cluster)
+        #[serde(default)]
+        offset: f64,
+        #[serde(default)]
+        spread_exp: f64,
+    },
     Curve {
         /// 0 polynomial basis, 1 trigonometric basis (linear in parameters); 2 a e^{bx}+c, 3 gaussian, 4 logistic
         model: u8,
@@ -159,8 +172,17 @@ fn jac_fd(f: &Budgeted, xs: &[f64], params: &mut DVector<f64>, mat: &mut DMatrix
     Some(())
 }
 
+/// outcome of the transliterated loop: parameters, final damping, and the number of main-loop iterations whose
+/// accepted trial step had a larger sum of squares than the point it started from (the loop has no step rejection)
+struct LmOut {
+    params: Vec<f64>,
+    damping: f64,
+    uphill: usize,
+}
+
 /// Err(None) = budget exhausted, Err(Some(msg)) = library-style error
-fn lm_model(f: &Budgeted, xs: &[f64], ys_in: &[f64], initial: &[f64], tol: f64, mut damping: f64, h: f64, mult: f64, mode: JacMode) -> Result<(Vec<f64>, f64), Option<String>> {
+fn lm_model(f: &Budgeted, xs: &[f64], ys_in: &[f64], initial: &[f64], tol: f64, mut damping: f64, h: f64, mult: f64, mode: JacMode) -> Result<LmOut, Option<String>> {
+    let mut uphill = 0usize;
     let v = initial.len();
     let mut params = DVector::from_column_slice(initial);
     let ys = DVector::from_column_slice(ys_in);
@@ -217,6 +239,7 @@ fn lm_model(f: &Budgeted, xs: &[f64], ys_in: &[f64], initial: &[f64], tol: f64, 
     while (last - sum_sq).abs() > tol {
         last = sum_sq;
         let diff = &ys - &evaluation;
+        let before: f64 = diff.iter().map(|r| r * r).fold(0.0, |a, r| a + r);
         let mut b = &jac_t * &diff;
         let mut b_div = b.clone();
         let mut multiplied = &jac_t * &jac;
@@ -266,10 +289,58 @@ fn lm_model(f: &Budgeted, xs: &[f64], ys_in: &[f64], initial: &[f64], tol: f64, 
             params = new_params;
             sum_sq = resid;
         }
+        if sum_sq > before * (1.0 + 1e-12) {
+            uphill += 1;
+        }
         jac_fd(f, xs, &mut params, &mut jac, h, mode).ok_or(None)?;
         jac_t = jac.transpose();
     }
-    Ok((params.iter().cloned().collect(), damping))
+    Ok(LmOut { params: params.iter().cloned().collect(), damping, uphill })
+}
+
+/// Reference Levenberg-Marquardt with step rejection (Marquardt scaling, analytic Jacobian): same start and initial
+/// damping; a trial step that does not lower the sum of squares is rejected and the damping raised. Used only to
+/// establish that a problem instance is one a safeguarded iteration solves.
+fn lm_safeguarded(model: u8, xs: &[f64], ys: &[f64], initial: &[f64], mut damping: f64, mult: f64) -> Option<Vec<f64>> {
+    let v = initial.len();
+    let mut p = DVector::from_column_slice(initial);
+    let res = |p: &DVector<f64>| -> DVector<f64> { DVector::from_fn(xs.len(), |i, _| ys[i] - model_eval(model, xs[i], p.as_slice())) };
+    let mut r = res(&p);
+    let mut cur = r.norm_squared();
+    for _ in 0..5000 {
+        let j = DMatrix::from_fn(xs.len(), v, |row, c| model_grad(model, xs[row], p.as_slice())[c]);
+        let jt = j.transpose();
+        let g = &jt * &r;
+        let jtj = &jt * &j;
+        let mut accepted = false;
+        for _ in 0..200 {
+            let mut a = jtj.clone();
+            for i in 0..v {
+                a[(i, i)] *= 1.0 + damping;
+            }
+            let step = a.lu().solve(&g)?;
+            let q = &p + &step;
+            let rq = res(&q);
+            let nq = rq.norm_squared();
+            if nq.is_finite() && nq <= cur {
+                let done = step.norm() <= 1e-14 * (1.0 + p.norm()) || cur - nq <= 1e-30;
+                p = q;
+                r = rq;
+                cur = nq;
+                damping = (damping / mult).max(1e-12);
+                accepted = true;
+                if done {
+                    return Some(p.iter().cloned().collect());
+                }
+                break;
+            }
+            damping *= mult.max(2.0);
+        }
+        if !accepted {
+            return Some(p.iter().cloned().collect());
+        }
+    }
+    Some(p.iter().cloned().collect())
 }
 
 // ------------------------------------------------------------------------------------------------
@@ -311,8 +382,13 @@ fn lcg_perm(n: usize, seed: u64) -> Vec<usize> {
 pub fn run_case(case: &Case) -> Outcome {
     let mut o = Obs::new();
     match case {
-        Case::Linear { xs, slope, icpt, noise, noise_amp, perm_seed, mismatch } => {
+        Case::Linear { xs, slope, icpt, noise, noise_amp, perm_seed, mismatch, offset, spread_exp } => {
             o.label("linear_fit");
+            let spread = 10f64.powf(*spread_exp);
+            let xs: &Vec<f64> = &xs.iter().map(|x| offset + spread * x).collect();
+            if *offset != 0.0 {
+                o.label("offset-abscissae");
+            }
             let n = xs.len();
             let ys: Vec<f64> = (0..n).map(|i| slope * xs[i] + icpt + noise_amp * noise[i % noise.len()]).collect();
             if *mismatch {
@@ -335,36 +411,55 @@ pub fn run_case(case: &Case) -> Outcome {
             if p.order() > 1 || !a.is_finite() || !b.is_finite() {
                 return o.fail("linear_fit did not return a finite line");
             }
+            // A-priori rounding bounds of the textbook formulas a = (m Sxy - Sx Sy)/D, b = (Sxx Sy - Sxy Sx)/D,
+            // D = m Sxx - Sx^2: each sum of n terms carries <= n eps of its absolute sum, the cancellations in the
+            // numerators and in D then lose kappa = Sxx / sum (x - mean)^2. KB is the safety factor on top.
+            const KB: f64 = 4.0;
+            let m = n as f64;
+            let (sx, sy, sxx, sxy): (f64, f64, f64, f64) = (xs.iter().sum(), ys.iter().sum(), xs.iter().map(|x| x * x).sum(), xs.iter().zip(ys.iter()).map(|(x, y)| x * y).sum());
+            let (ax, ay, axy): (f64, f64, f64) = (xs.iter().map(|x| x.abs()).sum(), ys.iter().map(|y| y.abs()).sum(), xs.iter().zip(ys.iter()).map(|(x, y)| (x * y).abs()).sum());
+            let den = m * sxx - sx * sx;
+            let mean = sx / m;
+            let var = xs.iter().map(|x| (x - mean).powi(2)).sum::<f64>();
+            o.set("kappa", sxx / var.max(1e-300));
+            let u = KB * m * EPS;
+            let (e_num_a, e_num_b, e_den) = (u * (m * axy + ax * ay), u * (sxx * ay + axy * ax), u * (m * sxx + ax * ax));
+            if !(den.abs() > 4.0 * e_den) {
+                return o.discard("abscissae too clustered for the normal equations in double precision");
+            }
+            let da = (e_num_a + a.abs() * e_den) / den.abs();
+            let db = (e_num_b + b.abs() * e_den) / den.abs();
+            let _ = (sy, sxy);
             // normal equations: residuals orthogonal to 1 and x
             let r: Vec<f64> = (0..n).map(|i| ys[i] - (a * xs[i] + b)).collect();
             let (r1, rx): (f64, f64) = (r.iter().sum(), r.iter().zip(xs.iter()).map(|(r, x)| r * x).sum());
-            let (xn, yn) = (xs.iter().map(|x| x * x).sum::<f64>().sqrt().max(1.0), ys.iter().map(|y| y * y).sum::<f64>().sqrt().max(1.0));
-            // conditioning of the 2x2 normal equations enters through the variance of x
-            let mean = xs.iter().sum::<f64>() / n as f64;
-            let var = xs.iter().map(|x| (x - mean).powi(2)).sum::<f64>();
-            let cond = (xn * xn * n as f64 / var.max(1e-300)).max(1.0);
-            let allow = 64.0 * EPS * n as f64 * xn * yn * cond;
-            o.set("ratio_normal", r1.abs().max(rx.abs()) / allow);
-            if !(r1.abs() <= allow && rx.abs() <= allow) {
-                return o.fail(format!("residuals are not orthogonal to 1 and x: sum r = {r1:e}, sum r x = {rx:e} (allowed {allow:e})"));
+            let floor1 = u * (ay + a.abs() * ax + m * b.abs());
+            let allow1 = da * ax + db * m + floor1;
+            let allowx = da * sxx + db * ax + u * (axy + a.abs() * sxx + b.abs() * ax);
+            o.set("ratio_normal", (r1.abs() / allow1).max(rx.abs() / allowx));
+            if !(r1.abs() <= allow1 && rx.abs() <= allowx) {
+                return o.fail(format!("residuals are not orthogonal to 1 and x: sum r = {r1:e} (allowed {allow1:e}), sum r x = {rx:e} (allowed {allowx:e})"));
             }
             if *noise_amp == 0.0 {
                 o.label("exactly-linear");
-                let e = (a - slope).abs().max((b - icpt).abs());
-                let al = 64.0 * EPS * cond * (slope.abs() + icpt.abs() + 1.0) * n as f64;
-                if !(e <= al) {
-                    return o.fail(format!("exactly linear data not reproduced: slope {a:e} vs {slope:e}, intercept {b:e} vs {icpt:e}"));
+                // the data themselves are rounded: y_i carries eps |y_i|, which moves the exact fit by at most
+                // eps sum|y| sum|x - mean| / var (slope) and that times |mean| + eps max|y| (intercept)
+                let dy = 2.0 * EPS * ay * xs.iter().map(|x| (x - mean).abs()).sum::<f64>() / var.max(1e-300) / m * m.sqrt();
+                let (ea, eb) = ((a - slope).abs(), (b - icpt).abs());
+                let (ala, alb) = (da + dy, db + dy * mean.abs() + 2.0 * EPS * ay / m * 4.0);
+                o.set("ratio_exact", (ea / ala).max(eb / alb));
+                if !(ea <= ala && eb <= alb) {
+                    return o.fail(format!("exactly linear data not reproduced: slope {a:e} vs {slope:e} (allowed {ala:e}), intercept {b:e} vs {icpt:e} (allowed {alb:e})"));
                 }
             }
             // order independence
             let perm = lcg_perm(n, *perm_seed);
             let (px, py): (Vec<f64>, Vec<f64>) = (perm.iter().map(|&i| xs[i]).collect(), perm.iter().map(|&i| ys[i]).collect());
             if let Ok(Ok(q)) = guard(|| linear_fit(&px, &py)) {
-                let e = (q.get_coefficient(1) - a).abs().max((q.get_coefficient(0) - b).abs());
-                let al = 64.0 * EPS * cond * (a.abs() + b.abs() + 1.0) * n as f64;
-                o.set("ratio_perm", e / al);
-                if !(e <= al) {
-                    return o.fail(format!("permuting the data changes the fit by {e:e} (allowed {al:e})"));
+                let (ea, eb) = ((q.get_coefficient(1) - a).abs(), (q.get_coefficient(0) - b).abs());
+                o.set("ratio_perm", (ea / (2.0 * da)).max(eb / (2.0 * db)));
+                if !(ea <= 2.0 * da && eb <= 2.0 * db) {
+                    return o.fail(format!("permuting the data changes the fit by {ea:e} (slope, allowed {:e}) / {eb:e} (intercept, allowed {:e})", 2.0 * da, 2.0 * db));
                 }
             } else {
                 return o.fail("linear_fit failed on permuted data");
@@ -416,6 +511,15 @@ pub fn run_case(case: &Case) -> Outcome {
             if !(mu >= 1e-5) {
                 return o.discard("scaled design not well conditioned (mu_min < 1e-5)");
             }
+            if !linear {
+                // a non-linear fit is judged only where the data pin the parameters down near the generating ones; a
+                // least-squares solution far from them (flat valley of a e^{bx} + c with b ~ 0) is another problem
+                let dp = pstar.iter().zip(pt.iter()).map(|(a, b)| (a - b).powi(2)).sum::<f64>().sqrt();
+                let ps = 1.0 + pt.iter().map(|x| x.abs()).fold(0.0, f64::max);
+                if dp > 0.1 * ps {
+                    return o.discard("non-linear model: the noise moves the least-squares solution far from the generating parameters");
+                }
+            }
             o.set("lambda_min", lam);
             o.set("mu_min", mu);
             o.nontrivial = !linear || *noise_amp != 0.0 || v >= 3;
@@ -438,7 +542,7 @@ pub fn run_case(case: &Case) -> Outcome {
                 let fm = move |x: f64, p: &[f64]| model_eval(model, x, p);
                 let bf = Budgeted { f: &fm, calls: Cell::new(0), budget: BUDGET };
                 match lm_model(&bf, xs, &ys, &st, *tol, *damping, *h, *mult, if *fd { JacMode::Diff } else { JacMode::Analytic(model) }) {
-                    Ok((_, d)) => d.max(*damping),
+                    Ok(out) => out.damping.max(*damping),
                     Err(_) => *damping,
                 }
             };
@@ -447,7 +551,7 @@ pub fn run_case(case: &Case) -> Outcome {
                 // calibration aid: how would the intended central-difference loop fare against the bound?
                 let fm = move |x: f64, p: &[f64]| model_eval(model, x, p);
                 let bf = Budgeted { f: &fm, calls: Cell::new(0), budget: BUDGET };
-                if let Ok((q, _)) = lm_model(&bf, xs, &ys, &st, *tol, *damping, *h, *mult, JacMode::Diff) {
+                if let Ok(LmOut { params: q, .. }) = lm_model(&bf, xs, &ys, &st, *tol, *damping, *h, *mult, JacMode::Diff) {
                     let e = q.iter().zip(pstar.iter()).map(|(a, b)| (a - b).powi(2)).sum::<f64>().sqrt();
                     let base = (tol / lam).sqrt() * (1.0 + d_final / (2.0 * mu)).sqrt();
                     let fdterm = h * h * rnorm * pscale / lam.sqrt();
@@ -496,20 +600,44 @@ pub fn run_case(case: &Case) -> Outcome {
                         let same = match (&res, &sim) {
                             (Err(Caught::Budget(_)), Err(None)) => true,
                             (Ok(Err(_)), Err(Some(_))) => true,
-                            (Ok(Ok(p)), Ok((q, _))) => p.iter().zip(q.iter()).all(|(a, b)| (a - b).abs() <= 1e-9 * (1.0 + a.abs().max(b.abs())) || (a.is_nan() && b.is_nan())),
+                            (Ok(Ok(p)), Ok(LmOut { params: q, .. })) => p.iter().zip(q.iter()).all(|(a, b)| (a - b).abs() <= 1e-9 * (1.0 + a.abs().max(b.abs())) || (a.is_nan() && b.is_nan())),
                             _ => false,
                         };
                         // and the intended central difference would have met the bound?
                         let bf2 = Budgeted { f: &fm, calls: Cell::new(0), budget: BUDGET };
                         let fixed = lm_model(&bf2, xs, &ys, &st, *tol, *damping, *h, *mult, JacMode::Diff);
                         let fixed_ok = match &fixed {
-                            Ok((q, _)) => q.iter().zip(pstar.iter()).map(|(a, b)| (a - b).powi(2)).sum::<f64>().sqrt() <= bound,
+                            Ok(LmOut { params: q, .. }) => q.iter().zip(pstar.iter()).map(|(a, b)| (a - b).powi(2)).sum::<f64>().sqrt() <= bound,
                             _ => false,
                         };
                         o.set("matches_bug_model", same);
                         o.set("central_difference_model_ok", fixed_ok);
                         if same {
                             return o.fail_sig(msg, "curve_fit:fd-jacobian-sum:outcome-matches-bug-model");
+                        }
+                    }
+                    if !*fd && !linear {
+                        // K3: the main loop of curve_fit_jac has no step rejection. Does the failing outcome coincide with
+                        // the transliterated loop, did that loop accept a step that raised the sum of squares, and does a
+                        // safeguarded iteration from the same start and damping meet the bound?
+                        let fm = move |x: f64, p: &[f64]| model_eval(model, x, p);
+                        let bf = Budgeted { f: &fm, calls: Cell::new(0), budget: BUDGET };
+                        let sim = lm_model(&bf, xs, &ys, &st, *tol, *damping, *h, *mult, JacMode::Analytic(model));
+                        let (same, uphill) = match (&res, &sim) {
+                            (Err(Caught::Budget(_)), Err(None)) => (true, 1),
+                            (Ok(Err(_)), Err(Some(_))) => (true, 1),
+                            (Ok(Ok(p)), Ok(out)) => (p.iter().zip(out.params.iter()).all(|(a, b)| (a - b).abs() <= 1e-9 * (1.0 + a.abs().max(b.abs())) || (a.is_nan() && b.is_nan())), out.uphill),
+                            _ => (false, 0),
+                        };
+                        let safeguarded_ok = match lm_safeguarded(model, xs, &ys, &st, *damping, *mult) {
+                            Some(q) => q.iter().zip(pstar.iter()).map(|(a, b)| (a - b).powi(2)).sum::<f64>().sqrt() <= bound,
+                            None => false,
+                        };
+                        o.set("matches_loop_model", same);
+                        o.set("uphill_steps_accepted", uphill);
+                        o.set("safeguarded_iteration_ok", safeguarded_ok);
+                        if same && uphill > 0 && safeguarded_ok {
+                            return o.fail_sig(msg, "curve_fit_jac:uphill-step-accepted:outcome-matches-loop-model");
                         }
                     }
                     o.fail(msg)
@@ -528,12 +656,13 @@ fn xs_strategy(lo: usize, hi: usize) -> BoxedStrategy<Vec<f64>> {
 }
 
 fn strategy(_t: Tier) -> BoxedStrategy<Case> {
-    let linear = (xs_strategy(3, 60), gen::fl(-3.0, 3.0), gen::fl(-3.0, 3.0), proptest::collection::vec(gen::fl(-1.0, 1.0), 60), prop_oneof![1 => Just(0.0), 1 => gen::logu(-4.0, -1.0)], any::<u64>(), prop_oneof![15 => Just(false), 1 => Just(true)])
-        .prop_map(|(xs, slope, icpt, noise, noise_amp, perm_seed, mismatch)| Case::Linear { xs, slope, icpt, noise, noise_amp, perm_seed, mismatch });
+    let place = prop_oneof![3 => Just((0.0, 0.0)), 2 => (prop_oneof![Just(10.0), Just(-50.0), Just(2010.0), gen::fl(-3000.0, 3000.0)], gen::fl(-1.5, 1.0))];
+    let linear = (xs_strategy(3, 60), gen::fl(-3.0, 3.0), gen::fl(-3.0, 3.0), proptest::collection::vec(gen::fl(-1.0, 1.0), 60), prop_oneof![1 => Just(0.0), 1 => gen::logu(-4.0, -1.0)], any::<u64>(), prop_oneof![15 => Just(false), 1 => Just(true)], place)
+        .prop_map(|(xs, slope, icpt, noise, noise_amp, perm_seed, mismatch, (offset, spread_exp))| Case::Linear { xs, slope, icpt, noise, noise_amp, perm_seed, mismatch, offset, spread_exp });
     let curve = (
         (0u8..5, 1usize..=4, xs_strategy(6, 60)),
         (proptest::collection::vec(gen::fl(-2.0, 2.0), 4), proptest::collection::vec(gen::fl(-2.0, 2.0), 4), proptest::collection::vec(gen::fl(-1.0, 1.0), 60), prop_oneof![1 => Just(0.0), 1 => gen::logu(-4.0, -2.0)]),
-        (gen::logu(-12.0, -6.0), gen::logu(-2.0, 1.0), gen::fl(1.1, 5.0), gen::logu(-4.0, -1.0), any::<bool>(), prop_oneof![12 => Just(0u8), 1 => 1u8..=4]),
+        (gen::logu(-12.0, -6.0), prop_oneof![3 => gen::logu(-2.0, 1.0), 1 => gen::logu(-4.0, -2.0)], gen::fl(1.1, 5.0), gen::logu(-4.0, -1.0), any::<bool>(), prop_oneof![12 => Just(0u8), 1 => 1u8..=4]),
     )
         .prop_map(|((model, nparam, xs), (truth, start, noise, noise_amp), (tol, damping, mult, h, fd, invalid))| Case::Curve { model, nparam, xs, truth, start, noise, noise_amp, tol, damping, mult, h, fd, invalid });
     prop_oneof![1 => linear, 3 => curve].boxed()
@@ -544,7 +673,7 @@ pub fn run(opts: &Opts) -> i32 {
     spec.cases = opts.tier.pick(6_000, 150_000);
     spec.essential = vec![("linear_fit", 0.1), ("curve_fit_jac", 0.2), ("curve_fit", 0.2), ("noisy", 0.2), ("invalid", 0.03), ("gaussian", 0.05), ("logistic", 0.05), ("exponential", 0.05), ("noisy-replicated-abscissae", 0.05)];
     spec.max_discard_frac = 0.2;
-    spec.rule = "generated: linear_fit on 3-60 stratified abscissae in [-2,2] (a third of all designs snapped to a grid of width 0.25/0.5/1, i.e. with replicated abscissae), exactly linear or noisy (10^[-4,-1]), permuted order, mismatched lengths; curve_fit_jac / curve_fit on 6-60 abscissae with models linear in 1-4 parameters (polynomial and trigonometric bases, arbitrary starts in [-2,2]) and non-linear models a e^{bx}+c, gaussian, logistic (starts within 20% of the truth), noise 0 or 10^[-4,-2], tolerance 10^[-12,-6], damping 10^[-2,1], multiplier [1.1,5], h 10^[-4,-1]; designs with lambda_min(J^T J) < 1e-3, and non-linear designs whose stopping-rule bound exceeds a tenth of the parameter scale, are discarded (counted); invalid: negative tolerance / h / damping, mismatched lengths. Oracle: normal equations, exact-linear reproduction, permutation invariance; model-call budget (termination); distance to the reference least-squares solution (harness Gauss-Newton with analytic Jacobian) <= 10 sqrt(tol/lambda_min) sqrt(1 + d/(2 mu_min)) + 1e-9 (d = final damping from the transliterated loop, mu_min = smallest eigenvalue of the diagonally scaled Gauss-Newton matrix) (+ 40 h^2 |r| term for finite differences); a failing curve_fit outcome that coincides with the harness's bug-compatible transliteration of the Levenberg-Marquardt loop (Jacobian = sum) is the recorded finding K1. Non-trivial = non-linear model, noisy data or >= 3 parameters (linear_fit: noisy or >= 10 points). Distinct = distinct case JSON.".into();
+    spec.rule = "generated: linear_fit on 3-60 stratified abscissae in [-2,2] (a third of all designs snapped to a grid of width 0.25/0.5/1, i.e. with replicated abscissae), exactly linear or noisy (10^[-4,-1]), permuted order, mismatched lengths, two fifths of the designs moved to offset + 10^[-1.5,1] x (offsets 10, -50, 2010 or U(-3000,3000): data far from the origin relative to their spread; allowances scale with kappa = sum x^2 / sum (x-mean)^2); curve_fit_jac / curve_fit on 6-60 abscissae with models linear in 1-4 parameters (polynomial and trigonometric bases, arbitrary starts in [-2,2]) and non-linear models a e^{bx}+c, gaussian, logistic (starts within 20% of the truth), noise 0 or 10^[-4,-2], tolerance 10^[-12,-6], damping 10^[-2,1] (a quarter of the cases 10^[-4,-2]: nearly Gauss-Newton), multiplier [1.1,5], h 10^[-4,-1]; designs with lambda_min(J^T J) < 1e-3, non-linear designs whose stopping-rule bound exceeds a tenth of the parameter scale, and non-linear designs whose least-squares solution lies further than a tenth of the parameter scale from the generating parameters, are discarded (counted); invalid: negative tolerance / h / damping, mismatched lengths. Oracle: normal equations, exact-linear reproduction, permutation invariance; model-call budget (termination); distance to the reference least-squares solution (harness Gauss-Newton with analytic Jacobian) <= 10 sqrt(tol/lambda_min) sqrt(1 + d/(2 mu_min)) + 1e-9 (d = final damping from the transliterated loop, mu_min = smallest eigenvalue of the diagonally scaled Gauss-Newton matrix) (+ 40 h^2 |r| term for finite differences); a failing curve_fit outcome that coincides with the harness's bug-compatible transliteration of the Levenberg-Marquardt loop (Jacobian = sum) is the recorded finding K1; a failing curve_fit_jac outcome on a non-linear model that coincides with the transliterated loop, in which that loop accepted a step raising the sum of squares, and which a safeguarded Levenberg-Marquardt iteration from the same start and damping solves, is the recorded finding K3. Non-trivial = non-linear model, noisy data or >= 3 parameters (linear_fit: noisy or >= 10 points). Distinct = distinct case JSON.".into();
     spec.assumptions = vec!["reference least-squares solution by Gauss-Newton from the generating parameters".into(), "bug-compatible LM transliteration tracks the implementation bit-for-bit (same nalgebra calls)".into()];
     spec.max_shrink_iters = 400;
     run_spec(spec, opts)
